@@ -202,6 +202,14 @@ def events():
         p.astate["zone"][0].update({"percent": (35 + 10 * k) % 100, "method": "percent", "power": "turbo" if k % 2 else "off"})
         p.push_status("zone")
 
+    def zone0_unreported_flip(p, k):
+        # zone 0 is switched to the other control method at the wall panel and the report of it is lost
+        # (docs/design.md: the AirTouch 4 console is known not to publish some group changes)
+        z = p.astate["zone"][0]
+        z["method"] = "percent" if z["method"] == "temperature" else "temperature"
+        for gen, w in p.w.items():
+            w.console.state["zone"][0]["method"] = z["method"]
+
     def st_zone2(p, k):
         p.astate["zone"][2].update({"setpoint": 19 + k, "spill": True, "battery_low": k % 2 == 0, "temperature": 18.0 + k / 10})
         p.push_status("zone")
@@ -231,6 +239,8 @@ def events():
         ("ac0.set_mode(HEAT)", cmd("ac0.set_mode(HEAT)", lambda at, acs, zs: (lambda: acs[0].set_mode(A.AcMode.HEAT, power_on=True)))),
         ("ac0.set_fan_speed(TURBO)", cmd("ac0.set_fan_speed(TURBO)", lambda at, acs, zs: (lambda: acs[0].set_fan_speed(A.AcFanSpeed.TURBO)))),
         ("zone0.set_damper(30)", cmd("zone0.set_damper_percentage(30)", lambda at, acs, zs: (lambda: zs[0].set_damper_percentage(30)))),
+        ("zone0-unreported-method-flip", zone0_unreported_flip),
+        ("zone0.set_target(23)", cmd("zone0.set_target_temperature(23)", lambda at, acs, zs: (lambda: zs[0].set_target_temperature(23)))),
         ("zone1.set_target(21)", cmd("zone1.set_target_temperature(21) [no sensor]", lambda at, acs, zs: (lambda: zs[1].set_target_temperature(21)))),
         ("acN.set_target(35)", cmd("last ac.set_target_temperature(35)", lambda at, acs, zs: (lambda: acs[max(acs)].set_target_temperature(35)))),
         ("ac0.clear_timer", cmd("ac0.clear_quick_timer(OFF)", lambda at, acs, zs: (lambda: acs[0].clear_quick_timer(A.AcTimerType.OFF_TIMER)))),
